@@ -194,7 +194,7 @@ func verifyRecovery(nw *Network, v *SimNode, pre []*Delivered, attempted, comple
 }
 
 func runC11(cs CaseSpec) *CaseResult {
-	if cs.Kind == "sigkill" {
+	if cs.Kind == "sigkill" || cs.Kind == "syscallkill" {
 		return runC11Kill(cs)
 	}
 	res := newResult(cs)
@@ -425,6 +425,21 @@ func runC11Kill(cs CaseSpec) *CaseResult {
 	pf := filepath.Join(dir, "plan.json")
 	os.WriteFile(pf, pb, 0o644)
 	cmd := exec.Command(os.Args[0], "crashchild", pf)
+	if cs.Kind == "syscallkill" {
+		// the child never reaches its own crash point; strace kills it on entering
+		// one of its write() calls to the victim's Badger value log, i.e. between two
+		// database commits (a store call may consist of several)
+		if _, err := exec.LookPath("strace"); err != nil {
+			res.inconclusive("strace not available")
+			return res
+		}
+		plan.K = 1 << 30
+		pb, _ = json.Marshal(plan)
+		os.WriteFile(pf, pb, 0o644)
+		cmd = exec.Command("strace", "-f", "-qq", "-o", "/dev/null", "-P", filepath.Join(dir, "db-0-0", "000000.vlog"),
+			"-e", "trace=write", "-e", fmt.Sprintf("inject=write:signal=SIGKILL:when=%d", cs.I("when", 40)),
+			os.Args[0], "crashchild", pf)
+	}
 	out, _ := os.Create(filepath.Join(dir, "child.out"))
 	cmd.Stdout, cmd.Stderr = out, out
 	done := make(chan error, 1)
@@ -442,10 +457,14 @@ func runC11Kill(cs CaseSpec) *CaseResult {
 	}
 	out.Close()
 	ws, ok := cmd.ProcessState.Sys().(syscall.WaitStatus)
-	if !ok || !ws.Signaled() || ws.Signal() != syscall.SIGKILL {
+	killedUnderStrace := cs.Kind == "syscallkill" && ok && (ws.Signaled() || ws.ExitStatus() == 137 || ws.ExitStatus() == 128+9)
+	if !killedUnderStrace && (!ok || !ws.Signaled() || ws.Signal() != syscall.SIGKILL) {
 		ob, _ := os.ReadFile(filepath.Join(dir, "child.out"))
 		res.inconclusive("crash child did not end by SIGKILL: " + trunc(string(ob), 600))
 		return res
+	}
+	if cs.Kind == "syscallkill" {
+		res.count("sigkill_children_killed_between_database_commits", 1)
 	}
 	res.count("sigkill_children", 1)
 	var paths map[int]string
@@ -532,8 +551,43 @@ func runC11Kill(cs CaseSpec) *CaseResult {
 		nw.violate("C11", "C11:self-fork-after-restart", "after SIGKILL and bootstrap a node created a second event at a height it had already used: "+nw.Rec.Forks[0], nil)
 		return res
 	}
+	if !nw.stopped && cs.I("second", 0) == 1 {
+		// every node stops once more (cleanly this time) after having taken part
+		// again: what it held and delivered in its second life must survive too
+		for _, sn := range ids {
+			pre2 := append([]*Delivered{}, sn.App.Delivered...)
+			held := map[string]bool{}
+			st := sn.Core.Hg().Store
+			for pk := range st.RepertoireByPubKey() {
+				evs, _ := st.ParticipantEvents(pk, -1)
+				for _, h := range evs {
+					held[h] = true
+				}
+			}
+			sn.peersAtCrash = clonePeers(sn.Core.Peers().Peers)
+			func() {
+				defer func() { recover() }()
+				st.Close()
+			}()
+			sn.Up = false
+			sn.StoreClosed = true
+			res.count("crash_second_stops_after_a_bootstrap", 1)
+			if !verifyRecovery(nw, sn, pre2, held, held, "a second stop, after a SIGKILL and bootstrap") {
+				return res
+			}
+		}
+		forks2 := len(nw.Rec.Forks)
+		nw.RunSchedule(ScheduleSpec{Steps: 40, Shape: "uniform", SubmitProb: 0.5, TxKinds: 2})
+		if !nw.stopped {
+			nw.FairCycles(20)
+		}
+		if !nw.stopped && len(nw.Rec.Forks) > forks2 {
+			nw.violate("C11", "C11:self-fork-after-restart", "after its second restart a node created a second event at a height it had already used: "+nw.Rec.Forks[len(nw.Rec.Forks)-1], nil)
+			return res
+		}
+	}
 	res.Evaluations = int64(nw.Step) + 1
-	res.digest("c11kill", cs.Seed, cs.Index, plan.K)
+	res.digest("c11kill", cs.Seed, cs.Index, cs.Kind, plan.K, cs.I("when", 0))
 	res.Sample = map[string]interface{}{"kind": "real SIGKILL of an all-Badger network process at a store call", "n": plan.N, "victim_store_call": plan.K, "recovered_nodes": plan.N}
 	return res
 }
@@ -626,7 +680,11 @@ func init() {
 				cs = append(cs, c)
 			}
 			for i := 0; i < kills; i++ {
-				cs = append(cs, CaseSpec{Kind: "sigkill", P: map[string]int64{"n": int64(2 + i%3), "k": int64(50 + i*211%3000), "after": int64(i % 2), "steps": 300, "cont": 80}})
+				cs = append(cs, CaseSpec{Kind: "sigkill", P: map[string]int64{"n": int64(2 + i%3), "k": int64(50 + i*211%3000), "after": int64(i % 2), "steps": 300, "cont": 80, "second": int64(i % 2)}})
+			}
+			// killed by strace between two database commits of the victim
+			for i := 0; i < 4*kills; i++ {
+				cs = append(cs, CaseSpec{Kind: "syscallkill", P: map[string]int64{"n": int64(2 + i%3), "when": int64(15 + (i*37)%160), "steps": 300, "cont": 60, "second": 1}})
 			}
 			return cs
 		},
